@@ -224,8 +224,9 @@ func (s *sessionRunner) aloneObs(c sessCall) *sessObs {
 }
 
 type sessReplay struct {
-	Build   string     `json:"build"`
-	Session []sessCall `json:"session"`
+	Build      string     `json:"build"`
+	Session    []sessCall `json:"session"`
+	Concurrent bool       `json:"concurrent,omitempty"` // the calls ran at the same time
 }
 
 func (s *sessionRunner) runSession(calls []sessCall) {
@@ -278,6 +279,50 @@ func (s *sessionRunner) runSession(calls []sessCall) {
 		sessReplay{Build: s.build, Session: calls})
 }
 
+// runPair: two calls at the same time in one fresh process; each reply must be the reply of that call alone
+func (s *sessionRunner) runPair(calls []sessCall) {
+	var want []*sessObs
+	for _, c := range calls {
+		w := s.aloneObs(c)
+		if w == nil {
+			return
+		}
+		want = append(want, w)
+	}
+	p, err := s.fresh()
+	if err != nil {
+		s.r.Broken("session: cannot start a worker: %v", err)
+		return
+	}
+	defer p.Close()
+	rq := wproto.Req{}
+	for _, c := range calls {
+		rq.Par = append(rq.Par, s.reqOf(c))
+	}
+	rp := p.Call(rq, 90*time.Second)
+	s.r.Count("real_calls", len(calls))
+	s.r.Count("concurrent_pairs_replayed", 1)
+	if rp.Class != "par" || len(rp.Sub) != len(calls) {
+		s.r.Mismatch("session"+s.build+":concurrent:"+rp.Class, fmt.Sprintf("calls [%s || %s] at the same time: %s %s", calls[0], calls[1], rp.Class, firstLine(rp.Err)),
+			sessReplay{Build: s.build, Session: calls, Concurrent: true})
+		return
+	}
+	for i, c := range calls {
+		got := sessObsOf(c, rp.Sub[i])
+		if c.has("dry") && got.Class == want[i].Class && got.Err == want[i].Err {
+			got.Out = want[i].Out // (the dry-run report goes through the colour package's process-wide settings: not compared here)
+		}
+		if reflect.DeepEqual(got, *want[i]) {
+			continue
+		}
+		s.r.Mismatch("session"+s.build+":concurrent:"+c.Op+"/"+c.Fam,
+			fmt.Sprintf("calls [%s || %s] at the same time: %s alone gives class=%s out=%q err=%q walk=%q entries=%v, next to the other call class=%s out=%q err=%q walk=%q entries=%v",
+				calls[0], calls[1], c, want[i].Class, clip(want[i].Out, 300), clip(want[i].Err, 200), want[i].Walk, want[i].Entries,
+				got.Class, clip(got.Out, 300), clip(got.Err, 200), got.Walk, got.Entries),
+			sessReplay{Build: s.build, Session: calls, Concurrent: true})
+	}
+}
+
 func clip(s string, n int) string {
 	if len(s) > n {
 		return s[:n] + "..."
@@ -307,14 +352,22 @@ func sessionPhaseIn(r *evid.Run, bin, build string) {
 		cfg, timeout = "MC_Session_thorough.cfg", 30*time.Minute
 	}
 	s := &sessionRunner{r: r, self: self, args: args, alone: map[string]*sessObs{}, build: build}
-	ch := make(chan []sessCall, 256)
+	type work struct {
+		calls []sessCall
+		par   bool
+	}
+	ch := make(chan work, 256)
 	var wg sync.WaitGroup
 	for i := 0; i < runtime.NumCPU(); i++ {
 		wg.Add(1)
 		go func() {
 			defer wg.Done()
-			for calls := range ch {
-				s.runSession(calls)
+			for w := range ch {
+				if w.par {
+					s.runPair(w.calls)
+				} else {
+					s.runSession(w.calls)
+				}
 			}
 		}()
 	}
@@ -328,15 +381,24 @@ func sessionPhaseIn(r *evid.Run, bin, build string) {
 			for _, v := range h {
 				calls = append(calls, sessCallOf(v))
 			}
+			par := len(st.Get("overlap").(tla.Set)) > 0
 			if build == "/tinywasm" {
 				for _, c := range calls {
 					if !c.wasmOK() {
 						return nil
 					}
 				}
-				ch <- calls
+				if !par { // (the page renders one document at a time)
+					ch <- work{calls, false}
+				}
+			} else if par {
+				// calls at the same time are C13's ("or concurrently in other goroutines"; "independent From-Markdown
+				// calls running concurrently"), whatever the operations
+				if r.ID == "C13" && len(calls) == 2 {
+					ch <- work{calls, true}
+				}
 			} else if calls[len(calls)-1].owner() == r.ID {
-				ch <- calls
+				ch <- work{calls, false}
 			}
 			return nil
 		})
